@@ -166,7 +166,14 @@ func (eval Evaluator) MultiplyByDiagMatrix(ctIn *rlwe.Ciphertext, matrix LinearT
 	QiOverF := params.QiOverflowMargin(levelQ)
 	PiOverF := params.PiOverflowMargin(levelP)
 
-	c0OutQP := ringqp.Poly{Q: opOut.Value[0], P: BuffQP[5].Q}
+	// The P part of c0 is accumulated in the Q half of a buffer,
+	// which has too few rows when levelP exceeds the maximum level of Q.
+	c0OutP := BuffQP[5].Q
+	if levelP > c0OutP.Level() {
+		c0OutP = ringP.NewPoly()
+	}
+
+	c0OutQP := ringqp.Poly{Q: opOut.Value[0], P: c0OutP}
 	c1OutQP := ringqp.Poly{Q: opOut.Value[1], P: BuffQP[5].P}
 
 	ct0TimesP := BuffQP[0].Q // ct0 * P mod Q
@@ -319,7 +326,14 @@ func (eval Evaluator) MultiplyByDiagMatrixBSGS(ctIn *rlwe.Ciphertext, matrix Lin
 	cQP.IsNTT = true
 
 	// Result in QP
-	c0OutQP := ringqp.Poly{Q: opOut.Value[0], P: BuffQP[5].Q}
+	// The P part of c0 is accumulated in the Q half of a buffer,
+	// which has too few rows when levelP exceeds the maximum level of Q.
+	c0OutP := BuffQP[5].Q
+	if levelP > c0OutP.Level() {
+		c0OutP = ringP.NewPoly()
+	}
+
+	c0OutQP := ringqp.Poly{Q: opOut.Value[0], P: c0OutP}
 	c1OutQP := ringqp.Poly{Q: opOut.Value[1], P: BuffQP[5].P}
 
 	ringQ.MulScalarBigint(ctInTmp0, ringP.ModulusAtLevel[levelP], ctInTmp0) // P*c0
